@@ -119,6 +119,7 @@ structure Ctx where
   constants : List Name
   localFuncs : List Str
   props : List Str
+  scriptGlobals : List Str -- context.global_vars (= script.global_vars)
   params : List Node       -- fn.parameters
   localVars : List Node    -- fn.local_vars
 
@@ -313,7 +314,7 @@ def Node.operand : Node → R Node
   | .unary _ _ x => .ok x
   | .toList _ x => .ok x
   | .toDict _ x => .ok x
-  | .tell _ x _ => .ok x
+  | .tell _ x _ _ => .ok x
   | _ => .error .type
 
 /-! ### process -/
@@ -337,7 +338,7 @@ def process0 (ctx : Ctx) (info : Opcodes.OpInfo) (index : Int) (st : PState) : R
     let (x, st) ← st.pop
     pure (st.push (.unary opname index x))
   | "ExitOpcode" | "ExitFactoryMethodOpcode" =>
-    .ok (st.addStmt index (.callFn (.s (S "exit")) index .none true false false))
+    .ok (st.addStmt index (.callFn (.s (S "exit")) index .none true false false .none))
   | "ZeroOpcode" => .ok (st.push (mkConst (.s (S "0")) index))
   | "AssignModeLocalVarOpcode" => do
     let mode ← attr info "mode"
@@ -356,10 +357,10 @@ def process0 (ctx : Ctx) (info : Opcodes.OpInfo) (index : Int) (st : PState) : R
     pure (st.addStmt index (.spAssign index (fieldOf index x) r mode))
   | "WindowTellStartOpcode" => do
     let (x, st) ← st.pop
-    pure { st.addStmt index (.tell index x []) with tell := true }
+    pure { st.addStmt index (.tell index x [] false) with tell := true }
   | "WindowTellEndOpcode" => do
-    let stmts ← tellEnd st.stmts
-    pure { st with stmts := stmts, tell := false }
+    let (stmts, stillOpen) ← tellEnd st.stmts
+    pure { st with stmts := stmts, tell := stillOpen }
   | "SpecialPropertiesOpcode" => specialProps st index
   | "AssignSpecialPropertiesOpcode" => do
     let st ← specialProps st index
@@ -458,7 +459,7 @@ def process1 (ctx : Ctx) (info : Opcodes.OpInfo) (p1 : Nat) (index : Int) (st : 
   | "VariableOpcode" => do
     let n ← nameAt ctx p1
     let gv := Node.leaf .globalVar (.s n) index
-    pure (if pyIn gv st.gvars then st.push gv else st.push (.leaf .localVar (.s n) index))
+    pure (if pyIn gv st.gvars ∨ ctx.scriptGlobals.contains n then st.push gv else st.push (.leaf .localVar (.s n) index))
   | "GlobalVariableOpcode" => do
     let n ← nameAt ctx p1
     let gv := Node.leaf .globalVar (.s n) index
@@ -479,7 +480,7 @@ def process1 (ctx : Ctx) (info : Opcodes.OpInfo) (p1 : Nat) (index : Int) (st : 
   | "TellPropertyOpcode" => do
     let n ← nameAt ctx p1
     let (ps, st) ← st.pop
-    pure (st.addStmt index (.callFn (.s n) index ps true true false))
+    pure (st.addStmt index (.callFn (.s n) index ps true true false .none))
   | "AssignGlobalVariableOpcode" => do
     let n ← nameAt ctx p1
     let gv := Node.leaf .globalVar (.s n) index
@@ -516,18 +517,20 @@ def process1 (ctx : Ctx) (info : Opcodes.OpInfo) (p1 : Nat) (index : Int) (st : 
   | "CallLocalOpcode" => do
     let fname ← pyGet ctx.localFuncs p1
     let (ps, st) ← st.pop
-    pushOrStmt st index (.callFn (.s fname) index ps true false true) ps
+    pushOrStmt st index (.callFn (.s fname) index ps true false true .none) ps
   | "CallExternalOpcode" => do
     let fname ← nameAt ctx p1
     let (ps, st) ← st.pop
-    pushOrStmt st index (.callFn (.s fname) index ps true false false) ps
+    pushOrStmt st index (.callFn (.s fname) index ps true false false .none) ps
   | "CallObjectMethodOpcode" => do
+    -- the receiver node is looked at before findVarName pops it
+    let receiver : Node := if p1 = 1 ∨ p1 = 2 ∨ p1 = 3 then (st.stack.head?).getD .none else .none
     let (fname, st) ← findVarName ctx p1 st
     let (ps, st) ← st.pop
     match ps with
     | .loadList ln lp ops =>
       let ps' := Node.loadList ln lp (clearHashLast ops)
-      let op := Node.callFn fname index ps' true false false
+      let op := Node.callFn fname index ps' true false false receiver
       pure (if startsWith ln (S "<") then st.push op else st.addStmt index op)
     | _ => throw Err.type
   | "CallExternalMethodOpcode" => do
@@ -698,6 +701,19 @@ def paramNames (ctx : Ctx) (d : Bytes) (off : Int) : Nat → Nat → R (List Nod
     let (rest, m') ← paramNames ctx d off k (nl + 1)
     pure (node :: rest, m || m')
 
+/-- the handler's table of global names: `for nl in range(count_c)`, entries that are not valid name indices are skipped -/
+def handlerGlobals (ctx : Ctx) (d : Bytes) (off : Int) : Nat → Nat → List Node → R (List Node)
+  | 0, _, acc => .ok acc
+  | k + 1, nl, acc => do
+    let idxl : Int := 2 * nl + off
+    let n ← getSI 2 d idxl
+    let acc' :=
+      if n ≥ 0 ∧ n < (ctx.names.length : Int) then
+        let gv := Node.leaf .globalVar (.s (nameOr ctx.names n)) idxl
+        if pyIn gv acc then acc else acc ++ [gv]
+      else acc
+    handlerGlobals ctx d off k (nl + 1) acc'
+
 /-- the fields of one function record block that are used, with the local-variable and parameter name tables -/
 structure FrbRec where
   fname : Str
@@ -706,6 +722,7 @@ structure FrbRec where
   locals : List Node
   params : List Node
   isMethod : Bool
+  globals : List Node      -- the handler's own table of global names (count C entries)
 
 /-- the straight-line part of one `parse_frb` iteration -/
 def readFrb (ctx0 : Ctx) (d : Bytes) (idx : Int) : R FrbRec := do
@@ -717,8 +734,8 @@ def readFrb (ctx0 : Ctx) (d : Bytes) (idx : Int) : R FrbRec := do
   let argOff ← getSI 4 d (idx + 14)
   let nLocal ← getSI 2 d (idx + 18)
   let localOff ← getSI 4 d (idx + 20)
-  let _ ← getSI 2 d (idx + 24)
-  let _ ← getSI 4 d (idx + 26)
+  let countC ← getSI 2 d (idx + 24)
+  let globOff ← getSI 4 d (idx + 26)
   let _ ← getSI 4 d (idx + 30)
   let _ ← getSI 2 d (idx + 34)
   let _ ← getSI 2 d (idx + 36)
@@ -726,11 +743,12 @@ def readFrb (ctx0 : Ctx) (d : Bytes) (idx : Int) : R FrbRec := do
   let fname := nameOr ctx0.names nameIdx
   let locals ← localNames ctx0 d localOff nLocal.toNat 0
   let (params, isMethod) ← paramNames ctx0 d argOff nArg.toNat 0
-  pure { fname, bcLen, bcOff, locals, params, isMethod }
+  let globals ← handlerGlobals ctx0 d globOff countC.toNat 0 []
+  pure { fname, bcLen, bcOff, locals, params, isMethod, globals }
 
 /-- `parse_opcodes` for one handler: the opcode loop, then condition_detect and loop_detect -/
 def parseOpcodes (ctx : Ctx) (d : Bytes) (r : FrbRec) (regs : Regs) (bpc : Nat) (tell : Bool) : R (Regs × PState) := do
-  let (regs, st) ← opcodeLoop ctx d r.bcOff r.bcLen r.bcOff regs { bpc := bpc, tell := tell }
+  let (regs, st) ← opcodeLoop ctx d r.bcOff r.bcLen r.bcOff regs { bpc := bpc, tell := tell, gvars := r.globals }
   let stmts ← condDetect st.stmts
   let stmts ← loopDetect stmts
   pure (regs, { st with stmts := stmts })
@@ -773,7 +791,8 @@ def readContainer (codec : Codec) (d : Bytes) (names : List Str) : R Container :
     returns the script and the registers afterwards -/
 def parseLscrWith (codec : Codec) (regs : Regs) (d : Bytes) (names : List Str) : R (Script × Regs) := do
   let c ← readContainer codec d names
-  let ctx : Ctx := { names := names, constants := c.constants, localFuncs := c.lfn, props := c.props, params := [], localVars := [] }
+  let ctx : Ctx := { names := names, constants := c.constants, localFuncs := c.lfn, props := c.props, scriptGlobals := c.globs,
+                     params := [], localVars := [] }
   let fs ← parseFuncs ctx d c.h.frbN.toNat c.h.frbOff { bpc := c.bpc, tell := false, regs := regs, funcs := [] }
   pure ({ properties := c.props, globalVars := c.globs, functions := fs.funcs, scrNum := c.h.scrNum, contScrNum := c.h.contScrNum,
           factoryName := c.factoryName }, fs.regs)
